@@ -167,6 +167,12 @@ class Engine:
                 I = f.blocks[fr[1]].ins[fr[2]]
                 if I.op == 'invoke': live = set(live) | f.liveout[fr[1]]
             d = {}
+            if i == 0 and ('!last' in da or '!last' in db):
+                la, lb = da.get('!last'), db.get('!last')
+                if la is None or lb is None: d['!last'] = la or lb
+                elif la is lb: d['!last'] = la
+                elif la[2] != lb[2]: raise EngineLimit('merging paths that spin-wait on locations of different size')
+                else: d['!last'] = (ite(gb, lb[0], la[0], 64), ite(gb, lb[1], la[1], la[2] * 8), la[2])
             for k in live:
                 va = da.get(k); vb = db.get(k)
                 if va is None or vb is None:
@@ -565,9 +571,9 @@ class Engine:
             return s.unwind(t, ctrl[1:], g)
         raise Unsupported('instruction: ' + I.text.strip()[:100])
     def setlast(s, t, p, v, sz, g):
-        st = s.tstate[t]; o = st.get('last')
-        if o is None or g is True or o[2] != sz: st['last'] = (p, v, sz)
-        else: st['last'] = (ite(g, p, o[0], 64), ite(g, v, o[1], sz * 8), sz)
+        """remember the location/value of this path's latest atomic read (what a following spin-wait watches)"""
+        env = s.env
+        env[0] = dict(env[0]); env[0]['!last'] = (p, v, sz)
     def tset(s, t, key, v, g, w):
         st = s.tstate[t]; o = st.get(key)
         st[key] = v if (o is None or g is True) else ite(g, v, o, w)
@@ -850,9 +856,9 @@ class Engine:
             return
         if nm == 'vf_spin_wait':
             st = s.tstate[t]
-            if 'last' not in st: raise EngineLimit('vf_spin_wait without a preceding atomic load')
-            if t == s.NT: s.add_check(g, 'spin-wait in sequential section would hang', 'assert'); return []
-            p, v, sz = st['last']
+            if t == s.NT or s.sequential: s.add_check(g, 'spin-wait in sequential section would hang', 'assert'); return []
+            if '!last' not in s.env[0]: raise EngineLimit('vf_spin_wait without a preceding atomic load')
+            p, v, sz = s.env[0]['!last']
             if 'park' in st and st['park'][2] == sz:
                 op_, ov, osz = st['park']
                 st['park'] = (ite(g, p, op_, 64), ite(g, v, ov, sz * 8), sz)
